@@ -18,6 +18,7 @@ EXPLANATION = ("Structural, path-complete conditions over the 7 spawned executor
                "coroutine of the crate (Multi::flush_and_cancel_executor releases executor_infos before it awaits the cancel: add_executor, called from the oldies' close callback, "
                "needs that lock; the latch's own callback mutex is the one listed exception); (R12.6) the executor task cannot die before its close callback: no panicking block is "
                "reachable in any item processor under either value of the instruments guard and the guard is implied by metrics() (shared with C11 R11.3 / R11.6).")
+EXPLANATION += " R12.2 reads the retry loop of register_execution_finish through flags / extracted helpers (flag-aware: no loop exit reachable once both transitions failed); (R12.7) nothing between the end of the stream loop and the close callback can kill the executor task: no fallible division / remainder / indexing whose divisor is not guarded against zero and no explicit panic in that region (a panic there means the close callback, and through the latch the Uni's, never runs)."
 ASSUMPTIONS = ["wall-clock ordering of callbacks relative to item side effects beyond dominance is not decided",
                "tokio::spawn runs the coroutine to completion; FnOnce close callbacks are at-most-once by type"]
 
